@@ -108,6 +108,8 @@ func vDataJSON(tok string) json.RawMessage {
 }
 
 func (h *vHub) nextId() string {
+	h.mu.Lock()
+	defer h.mu.Unlock()
 	h.msgId++
 	return strconv.Itoa(h.msgId)
 }
@@ -130,7 +132,31 @@ func (h *vHub) postApi(b int, room string, body interface{}) {
 	h.activity.Add(1)
 }
 
+// exec runs one op and reports what was observed.  "par a ;; b [;; c]" issues its sub-ops from concurrent
+// goroutines; only the tables at rest are reported for it (whichever order the server took them in).
 func (h *vHub) exec(op string) string {
+	par := strings.HasPrefix(op, "par ")
+	if par {
+		var wg sync.WaitGroup
+		for _, sub := range strings.Split(strings.TrimPrefix(op, "par "), ";;") {
+			sub := strings.TrimSpace(sub)
+			if sub == "" {
+				continue
+			}
+			wg.Add(1)
+			go func() {
+				defer wg.Done()
+				h.issue(sub)
+			}()
+		}
+		wg.Wait()
+	} else {
+		h.issue(op)
+	}
+	return h.collect(par)
+}
+
+func (h *vHub) issue(op string) {
 	f := strings.Fields(op)
 	atoi := func(s string) int { n, _ := strconv.Atoi(s); return n }
 	switch f[0] {
@@ -353,6 +379,9 @@ func (h *vHub) exec(op string) string {
 				"roomid": vDec(f[4]), "sessions": vDecList(f[5])}})
 		}
 	}
+}
+
+func (h *vHub) collect(digestOnly bool) string {
 	h.settle()
 	h.learnFromHub()
 	var toks []string
@@ -378,6 +407,17 @@ func (h *vHub) exec(op string) string {
 			}
 		}
 	}
+	// what the backend was told about virtual sessions that went away
+	h.mu.Lock()
+	told := h.told
+	h.told = nil
+	h.mu.Unlock()
+	for _, e := range told {
+		toks = append(toks, fmt.Sprintf("B=told(%s,%s)", vEnc(e[0]), h.sym(e[1])))
+	}
+	if digestOnly {
+		toks = nil
+	}
 	sort.Strings(toks)
 	return strings.Join(append(toks, h.digest()), " ")
 }
@@ -385,7 +425,15 @@ func (h *vHub) exec(op string) string {
 func vHubExec(t *testing.T, c *vCase) {
 	vHubSetVars()
 	nb := 2
+	var flat []string
 	for _, op := range c.Ops {
+		if strings.HasPrefix(op, "par ") {
+			flat = append(flat, strings.Split(strings.TrimPrefix(op, "par "), ";;")...)
+		} else {
+			flat = append(flat, op)
+		}
+	}
+	for _, op := range flat {
 		f := strings.Fields(op)
 		if len(f) > 2 && (f[0] == "hello" || f[0] == "api" || f[0] == "limit") {
 			idx := 2
@@ -785,9 +833,408 @@ func (g *vGen) step() {
 	}
 }
 
+// ---------- scripted openings ----------
+//
+// A purely random walk rarely builds the configurations the properties talk about (a virtual session
+// addressed from another backend, the same Nextcloud session id on two backends, two interruptions of one
+// session, ...).  Half of the cases therefore start with one of these openings -- parameters still drawn
+// from the case's PRNG -- and continue with the random walk.
+
+func (g *vGen) opConnect(c int) {
+	g.emit("connect %d", c)
+	g.connOpen[c] = true
+}
+
+func (g *vGen) freeConn() int {
+	for c := 1; c <= 6; c++ {
+		if _, busy := g.connSess[c]; !busy {
+			return c
+		}
+	}
+	return 1 + g.r.intn(6)
+}
+
+func (g *vGen) opHello(c, b int, kind, user string, d, i int) int {
+	if !g.connOpen[c] {
+		g.opConnect(c)
+	}
+	g.emit("hello %d %d %s %s %d %d", c, b, kind, vEnc(user), d, i)
+	if _, has := g.connSess[c]; has {
+		return -1
+	}
+	id := g.nextSym
+	g.nextSym++
+	g.sess[id] = &vGenSess{backend: b, internal: kind == "i", conn: c, user: user, alive: true}
+	g.connSess[c] = id
+	return id
+}
+
+func (g *vGen) opJoin(s int, room, rs, reply string) {
+	g.emit("join s%d %s %s %s", s, vEnc(room), vEnc(rs), reply)
+	if gs := g.sess[s]; gs != nil && gs.alive && gs.conn >= 0 && (strings.HasPrefix(reply, "ok") || gs.internal) {
+		gs.room = room
+	}
+}
+
+func (g *vGen) opVadd(s int, room, vkey, user, ic string, ok int) int {
+	g.emit("vadd s%d %s %s %s %s %d", s, vEnc(room), vEnc(vkey), vEnc(user), ic, ok)
+	if gs := g.sess[s]; gs != nil && gs.alive && gs.internal && gs.conn >= 0 && ok == 1 && g.roomMembers(gs.backend, room) > 0 {
+		id := g.nextSym
+		g.nextSym++
+		g.sess[id] = &vGenSess{backend: gs.backend, virtual: true, parent: s, vkey: vkey, room: room, conn: -1, alive: true}
+		return id
+	}
+	return -1
+}
+
+func (g *vGen) opVrm(s int, room, vkey string) {
+	g.emit("vrm s%d %s %s", s, vEnc(room), vEnc(vkey))
+	for id, v := range g.sess {
+		if v.alive && v.virtual && v.parent == s && v.vkey == vkey {
+			if gs := g.sess[s]; gs != nil && g.roomMembers(gs.backend, room) > 0 {
+				g.sess[id].alive = false
+			}
+		}
+	}
+}
+
+func (g *vGen) opDisconnect(c int) {
+	g.emit("disconnect %d", c)
+	if id, ok := g.connSess[c]; ok {
+		g.sess[id].conn = -1
+		delete(g.connSess, c)
+	}
+	g.connOpen[c] = false
+}
+
+func (g *vGen) opResume(c, id int) {
+	if !g.connOpen[c] {
+		g.opConnect(c)
+	}
+	if _, busy := g.connSess[c]; !busy {
+		if gs := g.sess[id]; gs != nil && gs.alive && !gs.virtual {
+			if gs.conn >= 0 {
+				delete(g.connSess, gs.conn)
+				g.connOpen[gs.conn] = false
+			}
+			gs.conn = c
+			g.connSess[c] = id
+		}
+	}
+	g.emit("resume %d s%d", c, id)
+}
+
+func (g *vGen) opBye(c int) {
+	g.emit("bye %d", c)
+	if id, ok := g.connSess[c]; ok {
+		g.closeSess(id)
+		g.connOpen[c] = false
+	}
+}
+
+func (g *vGen) opHk(level int) {
+	g.emit("hk %d", level)
+	if level >= 3 {
+		for _, id := range g.liveSessions(func(s *vGenSess) bool { return !s.virtual && s.conn < 0 }) {
+			g.closeSess(id)
+		}
+	}
+	if level >= 2 {
+		for _, id := range g.liveSessions(func(s *vGenSess) bool { return !s.virtual && !s.internal && s.user == "" && s.room == "" }) {
+			if c := g.sess[id].conn; c >= 0 {
+				g.connOpen[c] = false
+			}
+			g.closeSess(id)
+		}
+	}
+	if level >= 1 {
+		for c, open := range g.connOpen {
+			if _, has := g.connSess[c]; open && !has {
+				g.connOpen[c] = false
+			}
+		}
+	}
+}
+
+func (g *vGen) someData() string {
+	if g.r.chance(1, 5) {
+		return "chat-refresh"
+	}
+	return fmt.Sprintf("d%d", g.r.intn(1000))
+}
+
+func (g *vGen) someKind() string {
+	if g.r.chance(1, 3) {
+		return "c"
+	}
+	return "m"
+}
+
+// opMsgTo sends a message or control from `from` to the session `to` (by session id), to its user, the
+// room or the call.
+func (g *vGen) opMsgTo(from, to int) {
+	r := g.r
+	switch r.intn(6) {
+	case 0:
+		u := g.users[1+r.intn(len(g.users)-1)]
+		if gs := g.sess[to]; gs != nil && gs.user != "" {
+			u = gs.user
+		}
+		g.emit("msg s%d %s u %s %s", from, g.someKind(), vEnc(u), vEnc(g.someData()))
+	case 1:
+		g.emit("msg s%d %s r - %s", from, g.someKind(), vEnc(g.someData()))
+	case 2:
+		g.emit("msg s%d %s c - %s", from, g.someKind(), vEnc(g.someData()))
+	default:
+		g.emit("msg s%d %s s s%d %s", from, g.someKind(), to, vEnc(g.someData()))
+	}
+}
+
+func (g *vGen) someUser() string { return g.users[1+g.r.intn(len(g.users)-1)] }
+func (g *vGen) someRoom() string { return g.rooms[g.r.intn(len(g.rooms))] }
+func (g *vGen) someRs() string   { return g.rsids[g.r.intn(len(g.rsids))] }
+
+// opening plays one scripted opening; returns its name (for the case's tags).
+func (g *vGen) opening() string {
+	r := g.r
+	other := func(b int) int { return (b + 1 + r.intn(g.nb-1)) % g.nb }
+	switch r.intn(8) {
+	case 0:
+		// a virtual session, an ordinary member of its room, and a session of another backend in a room of
+		// the same name: messages in all directions
+		bI := r.intn(g.nb)
+		i := g.opHello(1, bI, "i", "", r.intn(2), r.intn(2))
+		u := g.opHello(2, bI, "c", g.someUser(), 0, 0)
+		room := g.someRoom()
+		g.opJoin(u, room, g.someRs(), "ok")
+		g.opJoin(i, room, "", "ok")
+		ic := "-"
+		if r.chance(1, 2) {
+			ic = strconv.Itoa(r.intn(8))
+		}
+		v := g.opVadd(i, room, "v0", g.someUser(), ic, 1)
+		o := g.opHello(3, other(bI), "c", g.someUser(), 0, 0)
+		g.opJoin(o, room, g.someRs(), "ok")
+		for k := 2 + r.intn(5); k > 0; k-- {
+			from := []int{o, o, u, i}[r.intn(4)]
+			to := []int{v, v, i, u, o}[r.intn(5)]
+			g.opMsgTo(from, to)
+		}
+		return "virtual-across-backends"
+	case 1:
+		// the same client-chosen id added twice (the second add may fail at the backend), then removed
+		b := r.intn(g.nb)
+		i := g.opHello(1, b, "i", "", r.intn(2), r.intn(2))
+		u := g.opHello(2, b, "c", g.someUser(), 0, 0)
+		room := g.someRoom()
+		g.opJoin(u, room, g.someRs(), "ok")
+		if r.chance(2, 3) {
+			g.opJoin(i, room, "", "ok")
+		}
+		key := fmt.Sprintf("v%d", r.intn(2))
+		v := g.opVadd(i, room, key, g.someUser(), "-", 1)
+		room2 := room
+		if r.chance(1, 4) {
+			room2 = g.someRoom()
+		}
+		g.opVadd(i, room2, key, g.someUser(), "-", r.intn(2))
+		if r.chance(1, 2) {
+			g.opMsgTo(u, v)
+		}
+		g.opVrm(i, room, key)
+		g.opMsgTo(u, v)
+		if r.chance(1, 2) {
+			g.opVrm(i, room, key)
+		}
+		return "duplicate-virtual-id"
+	case 2:
+		// virtual sessions that are still there when their internal client's session ends
+		b := r.intn(g.nb)
+		i := g.opHello(1, b, "i", "", r.intn(2), r.intn(2))
+		u := g.opHello(2, b, "c", g.someUser(), 0, 0)
+		room := g.someRoom()
+		g.opJoin(u, room, g.someRs(), "ok")
+		if r.chance(2, 3) {
+			g.opJoin(i, room, "", "ok")
+		}
+		v := -1
+		for k := 1 + r.intn(2); k > 0; k-- {
+			v = g.opVadd(i, room, fmt.Sprintf("v%d", k), g.someUser(), strconv.Itoa(r.intn(8)), 1)
+		}
+		switch r.intn(4) {
+		case 0:
+			g.opBye(1)
+		case 1:
+			g.opDisconnect(1)
+			g.opHk(3)
+		case 2:
+			g.emit("api %d %s delete", b, vEnc(room))
+			for _, s := range g.sess {
+				if s.alive && s.backend == b && s.room == room {
+					s.room = ""
+				}
+			}
+			g.opBye(1)
+		default:
+			g.opDisconnect(1)
+			g.opMsgTo(u, v)
+			g.opResume(g.freeConn(), i)
+			g.opBye(g.sess[i].conn)
+		}
+		g.opMsgTo(u, v)
+		return "internal-client-ends"
+	case 3:
+		// one session interrupted and resumed several times, with traffic for it in every gap
+		b := r.intn(g.nb)
+		a := g.opHello(1, b, "c", g.someUser(), 0, 0)
+		o := g.opHello(2, b, "c", g.someUser(), 0, 0)
+		room := g.someRoom()
+		g.opJoin(a, room, g.someRs(), "ok")
+		g.opJoin(o, room, g.someRs(), "ok")
+		for round := 2 + r.intn(2); round > 0; round-- {
+			g.opDisconnect(g.sess[a].conn)
+			for k := 1 + r.intn(3); k > 0; k-- {
+				if r.chance(1, 3) {
+					g.emit("api %d %s message %s", b, vEnc(room), vEnc(g.someData()))
+				} else {
+					g.opMsgTo(o, a)
+				}
+			}
+			if r.chance(1, 6) {
+				g.opHk(r.intn(3))
+			}
+			g.opResume(g.freeConn(), a)
+		}
+		g.opMsgTo(o, a)
+		return "repeated-resume"
+	case 4:
+		// an anonymous session that gets its user id from the room's backend reply
+		b := r.intn(g.nb)
+		user := g.someUser()
+		a := g.opHello(1, b, "c", "", 0, 0)
+		x := g.opHello(2, b, "c", user, 0, 0)
+		room := g.someRoom()
+		g.opJoin(a, room, g.someRs(), "ok:u="+vEnc(user))
+		if r.chance(2, 3) {
+			g.opJoin(x, room, g.someRs(), "ok")
+		}
+		for k := 2 + r.intn(3); k > 0; k-- {
+			g.emit("msg s%d %s u %s %s", []int{a, a, x}[r.intn(3)], g.someKind(), vEnc(user), vEnc(g.someData()))
+		}
+		return "user-id-from-room"
+	case 5:
+		// the same Nextcloud session id (and room name) in use on two backends, then backend requests naming it
+		b := r.intn(g.nb)
+		b2 := other(b)
+		room, rs := g.someRoom(), g.someRs()
+		a := g.opHello(1, b, "c", g.someUser(), 0, 0)
+		o := g.opHello(2, b2, "c", g.someUser(), 0, 0)
+		if r.chance(1, 2) {
+			g.opJoin(o, room, rs, "ok")
+			g.opJoin(a, room, rs, "ok")
+		} else {
+			g.opJoin(a, room, rs, "ok")
+			g.opJoin(o, room, rs, "ok")
+		}
+		if r.chance(1, 2) {
+			c := g.opHello(3, b, "c", g.someUser(), 0, 0)
+			g.opJoin(c, room, g.someRs(), "ok")
+		}
+		for k := 2 + r.intn(3); k > 0; k-- {
+			tb := []int{b, b2}[r.intn(2)]
+			switch r.intn(5) {
+			case 0:
+				g.emit("api %d %s participants %s:p=control %s", tb, vEnc(room), vEnc(rs), vEnc(rs))
+			case 1:
+				g.emit("api %d %s incall %s:%d %s:%d", tb, vEnc(room), vEnc(rs), 1+r.intn(7), vEnc(rs), 1+r.intn(7))
+			case 2:
+				g.emit("api %d %s disinvite - %s -", tb, vEnc(room), vEnc(rs))
+			case 3:
+				g.emit("api %d %s switchto %s %s", tb, vEnc(room), vEnc(g.someRoom()), vEnc(rs))
+			default:
+				g.emit("api %d %s participants %s %s:p=", tb, vEnc(room), vEnc(rs), vEnc(rs))
+			}
+		}
+		return "shared-room-session-id"
+	case 6:
+		// a session limit with registrations, rejected registrations and freed slots
+		b := r.intn(g.nb)
+		g.emit("limit %d %d", b, 1+r.intn(2))
+		for k := 2 + r.intn(3); k > 0; k-- {
+			c := 1 + r.intn(5)
+			switch r.intn(5) {
+			case 0:
+				g.opBye(c)
+			case 1:
+				g.opDisconnect(c)
+				g.opHk(3)
+			default:
+				// the generator's own bookkeeping may be off by the rejected ones; the walk tolerates that
+				g.opHello(c, b, "c", g.users[r.intn(len(g.users))], 0, 0)
+			}
+		}
+		return "session-limit"
+	default:
+		// a session taken over by a second connection while the first is still open
+		b := r.intn(g.nb)
+		a := g.opHello(1, b, "c", g.someUser(), 0, 0)
+		o := g.opHello(2, b, "c", g.someUser(), 0, 0)
+		room := g.someRoom()
+		g.opJoin(a, room, g.someRs(), "ok")
+		g.opJoin(o, room, g.someRs(), "ok")
+		g.opResume(3, a)
+		g.opMsgTo(o, a)
+		g.opDisconnect(1)
+		g.opMsgTo(o, a)
+		g.opDisconnect(3)
+		g.opMsgTo(o, a)
+		g.opResume(4, a)
+		return "takeover"
+	}
+}
+
+// finale ends a case with requests issued concurrently (connections 7.. are never used by the walk, "roomC"
+// is a room nobody is in): registrations racing for the last free slot of a backend, first joins of one
+// room, a registration racing with a slot being freed.
+func (g *vGen) finale() string {
+	r := g.r
+	b := r.intn(g.nb)
+	registered := len(g.liveSessions(func(s *vGenSess) bool { return !s.virtual && !s.internal && s.backend == b }))
+	hello := func(c int) string {
+		return fmt.Sprintf("hello %d %d c %s 0 0", c, b, vEnc(g.someUser()))
+	}
+	switch r.intn(3) {
+	case 0:
+		n := 2 + r.intn(2)
+		g.emit("limit %d %d", b, registered+1)
+		var subs []string
+		for c := 7; c < 7+n; c++ {
+			g.opConnect(c)
+			subs = append(subs, hello(c))
+		}
+		g.emit("par %s", strings.Join(subs, " ;; "))
+		return "race-for-last-slot"
+	case 1:
+		n := 2 + r.intn(2)
+		var subs []string
+		for c := 7; c < 7+n; c++ {
+			id := g.opHello(c, b, "c", g.someUser(), 0, 0)
+			subs = append(subs, fmt.Sprintf("join s%d %s %s ok", id, vEnc("roomC"), vEnc("")))
+		}
+		g.emit("par %s", strings.Join(subs, " ;; "))
+		return "concurrent-first-join"
+	default:
+		g.emit("limit %d %d", b, registered+1)
+		g.opHello(7, b, "c", g.someUser(), 0, 0)
+		g.opConnect(8)
+		g.emit("par bye 7 ;; %s", hello(8))
+		return "slot-freed-while-registering"
+	}
+}
+
 func vHubGen(e *vEnv, r *vRand) []vCase {
-	n := e.scale(40, 250)
-	maxOps := e.scale(30, 60)
+	n := e.scale(60, 300)
+	maxOps := e.scale(24, 50)
 	var cases []vCase
 	for i := 0; i < n; i++ {
 		rr := r.fork()
@@ -796,19 +1243,30 @@ func vHubGen(e *vEnv, r *vRand) []vCase {
 		if rr.chance(1, 4) {
 			g.nb = 3
 		}
-		if rr.chance(1, 4) {
-			g.emit("limit %d %d", rr.intn(g.nb), 1+rr.intn(2))
+		var tags []string
+		if i%2 == 1 {
+			tags = append(tags, "opening:"+g.opening())
+		} else {
+			if rr.chance(1, 4) {
+				g.emit("limit %d %d", rr.intn(g.nb), 1+rr.intn(2))
+			}
+			// warm-up: a few sessions so that the interesting ops have something to act on
+			for c := 1; c <= 2+rr.intn(3); c++ {
+				g.emit("connect %d", c)
+				g.connOpen[c] = true
+			}
 		}
-		// warm-up: a few sessions so that the interesting ops have something to act on
-		for c := 1; c <= 2+rr.intn(3); c++ {
-			g.emit("connect %d", c)
-			g.connOpen[c] = true
+		nops := len(g.ops) + 6 + rr.intn(maxOps)
+		if len(tags) == 0 {
+			nops = 8 + rr.intn(maxOps)
 		}
-		nops := 8 + rr.intn(maxOps)
 		for len(g.ops) < nops {
 			g.step()
 		}
-		cases = append(cases, vCase{Ops: g.ops})
+		if rr.chance(1, 2) {
+			tags = append(tags, "finale:"+g.finale())
+		}
+		cases = append(cases, vCase{Ops: g.ops, Tags: tags})
 	}
 	return cases
 }
